@@ -65,7 +65,9 @@ Lemma records_shapes :
   add_record_wf add_record "insert_asset" = true /\
   add_record_wf add_file_record "insert_file" = true /\
   add_record_wf add_dir_record "insert_dir" = true /\
-  insert_checks_reloader Record_insert_asset = true.
+  insert_checks_reloader Record_insert_asset = true /\
+  insert_checks_reloader Record_insert_file = true /\
+  insert_checks_reloader Record_insert_dir = true.
 Proof. vm_compute. repeat split. Qed.
 
 (* Cache::read / read_dir: the entry is recorded, then the source is asked *)
